@@ -27,6 +27,10 @@ Phase 3 (`--table2`, TARGETS2 -> coq/Gen/GenField2.v; subset described in props/
 `let x;`, tuple `let`, `debug_assert!`, value `if` / `match bool` / blocks (class Lifter), `/ < <= ?`,
 `.sqrt() .legendre().is_qr() .expect()`, Option chains in return position, enum variants, point-level
 method calls (`mul_bigint`, `eq`, `neg`, `into_group`, `into`, `double`) in targets with group_ops.
+Phase 4 (`--table3`, TARGETS3 -> coq/Gen/GenField3.v; props/Gen/NOTES.md "Phase 4"): per-curve hook overrides in
+curves/*/src and test-curves/src, by-value operator wrappers resolved to the translated by-reference `op_assign`,
+`TABLE[power % DEGREE]` (table = function parameter, the degree literal read from the impl), `assert!`, `as usize`,
+`c.not().then(|| ..)`, `match compress { Compress::Yes .. }`, writers as item lists.
 Semantics implemented: Copy values; operands evaluated left to right (a value operand is
 read when it is evaluated, a reference operand when the operation runs); `x op= e`
 evaluates e, then reads x; in-place methods (`square_in_place`, `double_in_place`,
